@@ -958,20 +958,39 @@ pub fn run_case(case: &IterCase) -> CaseReport {
     rep
 }
 
+/// Scenarios under the executor, plus the real tokio / async-std adapters under their own runtimes.
+#[derive(Clone, Debug, Serialize, Deserialize)]
+pub enum IterAny {
+    Sched(IterCase),
+    Adapter(crate::adapters::AdapterCase),
+}
+
+pub fn run_any(c: &IterAny) -> CaseReport {
+    match c {
+        IterAny::Sched(c) => run_case(c),
+        IterAny::Adapter(c) => crate::adapters::run_case(c),
+    }
+}
+
 fn replay(v: &Value) -> CaseReport {
+    if let Ok(c) = serde_json::from_value::<IterAny>(v.clone()) {
+        return run_any(&c);
+    }
     let case: IterCase = serde_json::from_value(v.clone()).expect("case");
     run_case(&case)
 }
 
 fn w09(def: &PropDef, args: &WorkerArgs) -> WorkerReport {
-    generic_worker(def, args, strategy(false), &run_case)
+    let s = prop_oneof![12 => strategy(false).prop_map(IterAny::Sched), 1 => crate::adapters::strategy().prop_map(IterAny::Adapter)].boxed();
+    generic_worker(def, args, s, &run_any)
 }
 fn w10(def: &PropDef, args: &WorkerArgs) -> WorkerReport {
-    let s = prop_oneof![3 => strategy(false), 1 => strategy(true)].boxed();
-    generic_worker(def, args, s, &run_case)
+    let s = prop_oneof![9 => strategy(false).prop_map(IterAny::Sched), 3 => strategy(true).prop_map(IterAny::Sched), 1 => crate::adapters::strategy().prop_map(IterAny::Adapter)].boxed();
+    generic_worker(def, args, s, &run_any)
 }
 fn w11(def: &PropDef, args: &WorkerArgs) -> WorkerReport {
-    generic_worker(def, args, strategy(true), &run_case)
+    let s = prop_oneof![12 => strategy(true).prop_map(IterAny::Sched), 1 => crate::adapters::strategy().prop_map(IterAny::Adapter)].boxed();
+    generic_worker(def, args, s, &run_any)
 }
 
 const ASSUME: &[&str] = &[
